@@ -340,7 +340,8 @@ def check(sc):
                     for a, nm in enumerate(want_names):
                         for b, t in enumerate(cols):
                             if op["linear"]:
-                                w = abs(sum(by[nm]["coeffs"].get(s, 0.0) * M[k][t] for k, s in enumerate(stations)))
+                                # documented linearisation: phase ignored, absolute value of every load coefficient
+                                w = abs(sum(abs(by[nm]["coeffs"].get(s, 0.0)) * M[k][t] for k, s in enumerate(stations)))
                             else:
                                 w = sum(by[nm]["coeffs"].get(s, 0.0) * M[k][t] * cmath.exp(1j * math.radians(sc["phases"][s]))
                                         for k, s in enumerate(stations))
